@@ -465,8 +465,9 @@ def roi_shape(roi: NdROI) -> Tuple[int, ...]:
                 "Can't determine shape of the slice with open right-hand side."
             )
         if s.start is None:
-            return _out
-        return _out - s.start
+            return max(0, _out)
+        # an empty selection (stop before start) has size 0, like numpy
+        return max(0, _out - s.start)
 
     if not isinstance(roi, tuple):
         roi = (roi,)
